@@ -8,7 +8,8 @@ ID = "C20"
 COQ_FILES = ["Common/Corr.v", "Model/Options.v", "Model/ProtocOptions.v", "Proofs/Options.v", "Props/C20.v"]
 PROPS = "Props/C20.v"
 THEOREMS = ["C20_scalar_coercion_ranges", "C20_noninteger_rejected", "C20_int_to_float", "C20_bool_coercion",
-            "C20_interpret_eq_protoc_partial", "C20_interpret_eq_protoc_refuted", "C20_no_uninterpreted_left_on_success"]
+            "C20_interpret_eq_protoc_partial", "C20_interpret_eq_protoc_refuted", "C20_interpret_eq_protoc_refuted_float_words",
+            "C20_no_uninterpreted_left_on_success"]
 AXIOMS_OK = []
 TRUSTED = ["hand-written Gallina mirror of options/options.go (interpretOptions, interpretField, setOptionField, fieldValue, "
            "scalarFieldValue, enumFieldValue, messageLiteralValue, checkFieldUsage): coq/Model/Options.v",
@@ -26,7 +27,7 @@ ASSUMPTIONS = ["modelled fragment: scalar kinds, enums (open/closed), message-ty
                "oneof conflicts across option statements are rejected (documented divergence from protoc, protobuf issue 9125): spec follows the project",
                "float literals reach the model as the float64 the parser computed (decimal conversion is C14/C39); float32 rounding is modelled exactly"]
 
-CHKS = ["opt_chk_strict", CHK_LENIENT, CHK_UNLINKED, "spec_chk", "spec_chk_known"]
+CHKS = ["opt_chk_strict", CHK_LENIENT, CHK_UNLINKED, "spec_chk", "spec_chk_nowords", "spec_chk_known"]
 DEFS = """
 (* A disagreement with the specification is attributed to fields without presence when the implementation
    behaves exactly like the mirror model and the mirror model agrees with the specification once every field
@@ -36,12 +37,14 @@ Definition explicit_field (f : field) : field :=
 Definition explicit_schema (sch : schema) : schema :=
   mkSchema (map (fun d => mkMsg (map explicit_field (mfields d))) (smsgs sch)) (senums sch)
            (map (fun x => mkExt (xname x) (xextendee x) (explicit_field (xfield x))) (sexts sch)).
+(* the specification without protoc's case-insensitive float words inside message literals (L1) *)
+Definition spec_chk_nowords (c : opt_case) : bool := spec_chk_gen false c.
 Definition spec_chk_known (c : opt_case) : bool :=
   spec_chk c ||
   match c with
   | OC sch tg T stmts os _ _ =>
     negb (schema_explicit sch) && opt_chk_strict c &&
-    match interpret_strict (explicit_schema sch) tg T [] stmts, protoc_interpret sch tg T [] stmts with
+    match interpret_strict (explicit_schema sch) tg T [] stmts, protoc_interpret sch tg true T [] stmts with
     | Err _, Err _ => true
     | Ok (m, _), Ok m' => mval_eqb m m'
     | _, _ => false
@@ -58,6 +61,17 @@ def generate(ctx, n_random, corpus_stride):
     rng = ctx.rng
     cases = []
     eks = list(ELEMENTS)
+    # 0. the smallest inputs of the findings so far, so that replays are short
+    t3, t2 = tiny_schema(ctx, "p3"), tiny_schema(ctx, "main")
+    for sch, sts in [(t3, [(X("(foo)", "a"), I(0)), (X("(foo)", "a"), I(5))]),
+                     (t3, [(X("(foo)", "s"), ("str", [])), (X("(foo)", "s"), ("str", [120]))]),
+                     (t3, [(X("(foo)"), LM(("a", I(0)))), (X("(foo)", "a"), I(5))]),
+                     (t3, [(X("(foo)", "a"), I(1)), (X("(foo)", "a"), I(0))]),
+                     (t2, [(X("(foo)", "a"), I(0)), (X("(foo)", "a"), I(5))]),
+                     (t2, [(X("(foo)", "sub", "a"), ("str", [120]))]),
+                     (tiny_schema(ctx, "float"), [(X("(foo)"), LM(("a", ("ident", "Infinity"))))]),
+                     (tiny_schema(ctx, "float"), [(X("(foo)"), LM(("a", ("ident", "inf"))))])]:
+        cases.append(("corpus", make_case(rng, ctx, "message", 0, fixed=(sch, sts))))
     # 1. corpus: everything on a message, a rotating share on every other element kind
     fixed = {ek: fixed_schema(ctx, ek) for ek in eks}
     def fx(ek, sts):
@@ -126,6 +140,9 @@ def run(ctx):
                         ctx.violation("uninterpreted-left-after-success",
                                       "%s interpretation succeeded but %s still has %d uninterpreted option(s)" % (mode, e["el"], len(e["unint"])),
                                       {"proto": text, "files": c["files"], "mode": mode, "element": e})
+        if o["strict"].get("ok") and not o["strictm"].get("ok"):
+            ctx.corr_break("options:compiler-vs-InterpretOptions", {"proto": text, "files": c["files"]},
+                           {"why": "protocompile.Compiler accepts what options.InterpretOptions rejects", "interpret_options": o["strictm"]})
         # the whole compiler against InterpretOptions alone: same options when both accept
         if o["strict"].get("ok") and o["strictm"].get("ok"):
             a, b = find_elem(o["strict"], c["key"]), find_elem(o["strictm"], c["key"])
@@ -140,11 +157,17 @@ def run(ctx):
         raise RuntimeError(err)
     spec_bad = set(res["spec_chk"])
     known_bad = set(res["spec_chk_known"])
+    nowords_bad = set(res["spec_chk_nowords"])
     for i in sorted(spec_bad):
         klass, c, o = meta[i]
         text = c["files"]["t.proto"]
         obs = {m: {k: v for k, v in o[m].items()} for m in ("strict", "strictm")}
-        if i not in known_bad:
+        if i not in nowords_bad:
+            ctx.violation("float-word-letter-case-in-message-literal",
+                          "inside a message literal a float or double field does not take inf / infinity / nan in another letter case "
+                          "(Infinity, INF, NaN ...) unless a minus sign precedes it; protoc's text format reads them in any letter case",
+                          {"proto": text, "files": c["files"], "observed": obs})
+        elif i not in known_bad:
             ctx.violation("option-set-twice-on-field-without-presence",
                           "an option field without presence (proto3, not optional) that was set to its zero value is accepted a second time; protoc reports it as already set",
                           {"proto": text, "files": c["files"], "observed": obs})
